@@ -54,6 +54,9 @@ def run(ctx) -> None:
     ctx.rule("C16.R5-anchored-substitution", "reference->hash substitution in the arguments is escaped, anchored and longest-first")
     ctx.rule("C16.R6-order-insensitive-hash", "_memoization_info_to_hash traverses dictionaries and lists through sorted()")
     ctx.rule("C16.R7-cache-discipline", "memoization_reset clears all four cached fields; None results are not cached")
+    ctx.rule("C16.R8-stateless-computation", "_compute_memoization_info, its helpers and _memoization_info_to_hash keep no state on the "
+                                             "component between computations (a failed attempt is retried later; anything remembered from "
+                                             "it - e.g. file digests - would make the hash depend on history, not on the current contents)")
     ctx.assume("the slice is flow-insensitive: a name reused for two purposes merges their sources (over-approximation)")
     ctx.assume("arguments of method calls are treated as selectors (which object/entry), not as data")
 
@@ -226,6 +229,78 @@ def run(ctx) -> None:
         ok = isinstance(it, ast.Call) and call_name(it) == "sorted"
         ctx.ob("C16.R6-order-insensitive-hash", it, ok, "sorted traversal" if ok else "the hash routine iterates %s unsorted" % short(it, 50))
     ctx.floor("C16.R6-order-insensitive-hash", len(iters), 2, "loops in _memoization_info_to_hash")
+
+    # ---------------- R8 -------------------------------------------------------------------------------
+    MUTATORS = {"update", "append", "add", "setdefault", "pop", "clear", "extend", "insert", "remove", "popitem", "discard", "__setitem__"}
+
+    def self_rooted(e: ast.AST) -> bool:
+        while isinstance(e, (ast.Attribute, ast.Subscript)):
+            e = e.value
+        return isinstance(e, ast.Name) and e.id in ("self", "cls")
+
+    def local_names(f: ast.AST) -> Set[str]:
+        out: Set[str] = set()
+        for n in ast.walk(f):
+            if isinstance(n, ast.Name) and isinstance(n.ctx, ast.Store):
+                out.add(n.id)
+            elif isinstance(n, ast.arg):
+                out.add(n.arg)
+            elif isinstance(n, (ast.FunctionDef, ast.ClassDef)):
+                out.add(n.name)
+            elif isinstance(n, ast.ExceptHandler) and n.name:
+                out.add(n.name)
+            elif isinstance(n, (ast.Import, ast.ImportFrom)):
+                out.update((a.asname or a.name).split(".")[0] for a in n.names)
+        return out
+
+    def root_name(e: ast.AST) -> Optional[str]:
+        while isinstance(e, (ast.Attribute, ast.Subscript)):
+            e = e.value
+        return e.id if isinstance(e, ast.Name) else None
+    _locals: Dict[int, Set[str]] = {}
+
+    def is_self_store_target(t: ast.AST) -> bool:
+        """a store into the component (self/cls rooted) or into anything that is not a local of the computation (module state)"""
+        if not isinstance(t, (ast.Attribute, ast.Subscript)):
+            return False
+        if self_rooted(t):
+            return True
+        r = root_name(t)
+        return r is not None and r not in _cur_locals
+    n8 = 0
+    for f in (fn, g.func("ComponentSpecification._memoization_info_to_hash")):
+        ctx.analysed(f)
+        bad = []
+        _cur_locals = local_names(f)
+        for n in ast.walk(f):
+            if isinstance(n, (ast.Assign, ast.AnnAssign, ast.AugAssign)):
+                targets = n.targets if isinstance(n, ast.Assign) else [n.target]
+                flat = []
+                for t in targets:
+                    flat.extend(t.elts if isinstance(t, (ast.Tuple, ast.List)) else [t])
+                bad.extend(n for t in flat if is_self_store_target(t))
+            elif isinstance(n, ast.Delete):
+                bad.extend(n for t in n.targets if is_self_store_target(t))
+            elif isinstance(n, ast.Call) and isinstance(n.func, ast.Attribute) and n.func.attr in MUTATORS and (
+                    (self_rooted(n.func.value) and isinstance(n.func.value, (ast.Attribute, ast.Subscript)))
+                    or (root_name(n.func.value) is not None and root_name(n.func.value) not in _cur_locals
+                        and root_name(n.func.value) not in ("self", "cls") and isinstance(n.func.value, ast.Name))):
+                bad.append(n)
+            elif isinstance(n, ast.Global):
+                bad.append(n)
+            elif isinstance(n, ast.FunctionDef) and any("cache" in source.src(d).lower() for d in n.decorator_list):
+                bad.append(n.decorator_list[0])
+            n8 += 1
+        reads = [n for n in ast.walk(f) if isinstance(n, ast.Attribute) and isinstance(n.value, ast.Name) and n.value.id == "self"
+                 and n.attr.startswith("_memoization") and isinstance(n.ctx, ast.Load) and n.attr not in ("_memoization_info_to_hash",)]
+        ok = not bad and not reads
+        where = (bad + reads)[0] if (bad or reads) else f
+        ctx.ob("C16.R8-stateless-computation", where, ok,
+               "%s neither stores to nor reads remembered state of the component" % f.name if ok else
+               "%s keeps state on the component between hash computations (%s): a digest or partial result remembered from an "
+               "earlier (possibly failed) attempt is re-used after the files changed, so the hash no longer identifies the "
+               "current contents" % (f.name, short(where, 70)), construct="%s is stateless" % f.name)
+    ctx.floor("C16.R8-stateless-computation", n8, 100, "AST nodes of the hash computation inspected")
 
     # ---------------- R7 -------------------------------------------------------------------------------
     reset = g.func("ComponentSpecification.memoization_reset")
